@@ -80,6 +80,16 @@ CHECKS = {
          "2-3 keys, 2 values, TTL 1 ms, retention 1-2, graph cut at 4-5 ops (simulated behaviours to 10); process-crash (prefix) "
          "model, no fsync reordering; clock injected via the verif-hooks feature; TLC and the harness projection are trusted.",
          "TLA+ spec with multi-step checkpoint and Crash action checked by TLC; state-graph replay on the real store; crash-state fault enumeration following the spec's step structure"),
+ "C12": ("model_checking",
+         "TLC checks tumbling placement (each processed event in exactly one window, the aligned one), the sliding no-old / "
+         "keeps-young-except-cap conditions and the alpha node's after-accept invariants on all event sequences of the bounded "
+         "model; the dumped graph plus TLC-simulated sequences of up to 12 events (late, shuffled, mixed field types) are replayed "
+         "on the real WindowManager, TimeWindow::record, StreamAlphaNode (injected clock) and cross-checked against WindowedStream; "
+         "member ids and all five aggregates compared after every event.",
+         "DESIGN.md §4 C12",
+         "Timestamps from a dense 12-value domain, durations {1,2,3,5} ms, caps {1,2,3,8}; retention of old windows modelled as the "
+         "code does it (not part of the invariant); clock injected via the verif-hooks feature; TLC and the harness projection are trusted.",
+         "TLA+ state-machine spec, TLC state-graph dump + simulated behaviours replayed on the real objects"),
 }
 
 NOT_YET = "check not built yet in this round (see DESIGN.md §9 build order); no claim is made"
